@@ -158,78 +158,88 @@ def verify_function(eng, qualname, contract, make_args, max_paths=4000, fork_sli
                     outcome = ("limit", str(lim))
                     if res.limitation is None:
                         res.limitation = str(lim)
-                # enumerate siblings
+                def post():
+                    tag = fork_tag(fork)
+                    # obligations collected on the way
+                    for (nm, pc, goal, meta) in path.obligations:
+                        st, bk, dt, model = discharge(pc, goal)
+                        res.add(f"{qualname} [{tag}] {nm}", st, bk, dt, model=model_to_dict(model), kind=(meta or {}).get("kind", "inline"))
+                    if outcome[0] in ("end", "limit"):
+                        return
+                    if outcome[0] == "raise":
+                        e = outcome[1]
+                        if e.implicit or e.cls_name not in raises:
+                            # must be infeasible: the obligation is  pc => False  (under the full path condition)
+                            st, bk, dt, model = discharge(path.pc, False)
+                            res.add(f"{qualname} [{tag}] no {e.cls_name}" + (f" ({e.info})" if e.info else ""), st,
+                                    bk, dt, model=model_to_dict(model), kind="implicit-exception" if e.implicit else "undocumented-exception",
+                                    fork=tag)
+                            return
+                        res.covers[e.cls_name] += 1
+                        cond = eng.truth(eval_spec(eng, raises[e.cls_name], pre_env, path, fi), path)
+                        st, bk, dt, model = discharge(path.pc, zterm(cond))
+                        res.add(f"{qualname} [{tag}] raises {e.cls_name} only if specified", st, bk, dt,
+                                model=model_to_dict(model), kind="raises", fork=tag)
+                        return
+                    # normal exit
+                    res.covers["normal"] += 1
+                    val = outcome[1]
+                    args_ok = True
+                    for exc, cnd in raises.items():
+                        cond = eng.truth(eval_spec(eng, cnd, pre_env, path, fi), path)
+                        st, bk, dt, model = discharge(path.pc, zterm(eng.not_(cond)))
+                        res.add(f"{qualname} [{tag}] returns only if not ({exc} condition)", st, bk, dt,
+                                model=model_to_dict(model), kind="raises-iff", fork=tag)
+                        if st != "discharged":
+                            args_ok = False
+                            if model is not None and not isinstance(model, str):
+                                # continue on the part of the path where the arguments are valid
+                                pass
+                    ens = contract.get("ensures")
+                    if ens and not args_ok:
+                        # the post-condition presupposes arguments that the contract says are rejected
+                        conds_false = []
+                        for exc, cnd in raises.items():
+                            c2 = eng.truth(eval_spec(eng, cnd, pre_env, path, fi), path)
+                            conds_false.append(zterm(eng.not_(c2)))
+                        try:
+                            path.assume(z3.And(*conds_false))
+                            if path.sat():
+                                args_ok = True
+                        except PathEnd:
+                            pass
+                    if ens and args_ok:
+                        env2 = dict(pre_env)
+                        env2["result"] = val
+                        env2["OLD"] = pre_heap
+                        g = eng.truth(eval_spec(eng, ens, env2, path, fi), path)
+                        st, bk, dt, model = discharge(path.pc, zterm(g))
+                        res.add(f"{qualname} [{tag}] ensures", st, bk, dt, model=model_to_dict(model), kind="ensures",
+                                fork=tag, detail=getattr(eng, "last_detail", None))
+                        eng.last_detail = None
+                    # frame
+                    for (oid, field) in path.writes[nwrites:]:
+                        owner = [k for k, v in pre_env.items() if isinstance(v, Obj) and v.oid == oid]
+                        if owner and f"{owner[0]}.{field}" not in allowed_frame:
+                            res.add(f"{qualname} [{tag}] frame: no store to {owner[0]}.{field}", "failed", "frame-scan", 0.0,
+                                    kind="frame", fork=tag)
+                res.paths += 1
+                if res.paths > max_paths:
+                    raise Limitation(f"more than {max_paths} paths")
+                try:
+                    post()
+                except PathEnd:
+                    pass
+                except Limitation as lim:
+                    if res.limitation is None:
+                        res.limitation = str(lim)
+                # enumerate siblings: every decision taken on this run beyond the replayed prefix - in the code AND in
+                # the evaluation of the contract clauses afterwards (a clause that branches on an argument the code
+                # does not look at is a case split of the proof)
                 for i in range(len(decisions), len(path.taken)):
                     d, n, _ = path.taken[i]
                     for alt in range(d + 1, n):
                         stack.append([t[0] for t in path.taken[:i]] + [alt])
-                res.paths += 1
-                if res.paths > max_paths:
-                    raise Limitation(f"more than {max_paths} paths")
-                tag = fork_tag(fork)
-                # obligations collected on the way
-                for (nm, pc, goal, meta) in path.obligations:
-                    st, bk, dt, model = discharge(pc, goal)
-                    res.add(f"{qualname} [{tag}] {nm}", st, bk, dt, model=model_to_dict(model), kind=(meta or {}).get("kind", "inline"))
-                if outcome[0] in ("end", "limit"):
-                    continue
-                if outcome[0] == "raise":
-                    e = outcome[1]
-                    if e.implicit or e.cls_name not in raises:
-                        # must be infeasible: the obligation is  pc => False  (under the full path condition)
-                        st, bk, dt, model = discharge(path.pc, False)
-                        res.add(f"{qualname} [{tag}] no {e.cls_name}" + (f" ({e.info})" if e.info else ""), st,
-                                bk, dt, model=model_to_dict(model), kind="implicit-exception" if e.implicit else "undocumented-exception",
-                                fork=tag)
-                        continue
-                    res.covers[e.cls_name] += 1
-                    cond = eng.truth(eval_spec(eng, raises[e.cls_name], pre_env, path, fi), path)
-                    st, bk, dt, model = discharge(path.pc, zterm(cond))
-                    res.add(f"{qualname} [{tag}] raises {e.cls_name} only if specified", st, bk, dt,
-                            model=model_to_dict(model), kind="raises", fork=tag)
-                    continue
-                # normal exit
-                res.covers["normal"] += 1
-                val = outcome[1]
-                args_ok = True
-                for exc, cnd in raises.items():
-                    cond = eng.truth(eval_spec(eng, cnd, pre_env, path, fi), path)
-                    st, bk, dt, model = discharge(path.pc, zterm(eng.not_(cond)))
-                    res.add(f"{qualname} [{tag}] returns only if not ({exc} condition)", st, bk, dt,
-                            model=model_to_dict(model), kind="raises-iff", fork=tag)
-                    if st != "discharged":
-                        args_ok = False
-                        if model is not None and not isinstance(model, str):
-                            # continue on the part of the path where the arguments are valid
-                            pass
-                ens = contract.get("ensures")
-                if ens and not args_ok:
-                    # the post-condition presupposes arguments that the contract says are rejected
-                    conds_false = []
-                    for exc, cnd in raises.items():
-                        c2 = eng.truth(eval_spec(eng, cnd, pre_env, path, fi), path)
-                        conds_false.append(zterm(eng.not_(c2)))
-                    try:
-                        path.assume(z3.And(*conds_false))
-                        if path.sat():
-                            args_ok = True
-                    except PathEnd:
-                        pass
-                if ens and args_ok:
-                    env2 = dict(pre_env)
-                    env2["result"] = val
-                    env2["OLD"] = pre_heap
-                    g = eng.truth(eval_spec(eng, ens, env2, path, fi), path)
-                    st, bk, dt, model = discharge(path.pc, zterm(g))
-                    res.add(f"{qualname} [{tag}] ensures", st, bk, dt, model=model_to_dict(model), kind="ensures",
-                            fork=tag, detail=getattr(eng, "last_detail", None))
-                    eng.last_detail = None
-                # frame
-                for (oid, field) in path.writes[nwrites:]:
-                    owner = [k for k, v in pre_env.items() if isinstance(v, Obj) and v.oid == oid]
-                    if owner and f"{owner[0]}.{field}" not in allowed_frame:
-                        res.add(f"{qualname} [{tag}] frame: no store to {owner[0]}.{field}", "failed", "frame-scan", 0.0,
-                                kind="frame", fork=tag)
     # covers (for a slice of the forks they are evaluated after the slices are merged: vcrun)
     for k, n in res.covers.items():
         if fork_slice is None and n == 0 and res.limitation is None and not contract.get("cover_optional", {}).get(k):
